@@ -578,7 +578,7 @@ Definition sub_op (o : bop) : bool :=
   | BNewPrim _ sz _ => (sz =? 0) || width_b sz
   | BNewBit _ _ | BNewPList _ _ | BNewVoid _ _ => true
   | BNewComp _ dsz pc _ => (0 <=? dsz) && (0 <=? pc) && (pc <? 65536)
-  | BNewBytes _ v _ => zlen v <? 536870911
+  | BNewBytes _ v _ => (zlen v <? 536870911) && forallb (fun b => (0 <=? b) && (b <? 256)) v   (* a []byte *)
   | BNewCap _ idx => (0 <=? idx) && (idx <? 4294967296)
   | BAddCap _ => true
   | BSetUint _ off n _ => (0 <=? off) && width_b n
